@@ -7,7 +7,7 @@ Spec: spec/LlcpPdu.tla (executable reading of the LLCP 1.3 frame formats: Encode
     step: outcome class and fields against Decode, nfcpy's octets against Encode, len() against DeclLen,
     the re-encoding round trip, and "decoded from its own slice" (OwnSlice).
 """
-import os, re, sys, json, time, shutil, multiprocessing, concurrent.futures as cf
+import os, re, sys, json, time, shutil, subprocess, multiprocessing, concurrent.futures as cf
 
 from vlib import tlc, check, tlaval, OUT, SRC
 from bind import c11_cases as cases
@@ -18,11 +18,16 @@ TRIVIAL = ("short",)            # Decode's header check: not counted in distinct
 _acc = re.compile(r'^<<"ACCEPT", "([^"]+)", <<(.*)>>>>$', re.M)
 
 
-def parse_verdicts(text):
-    """-> {id: ("ACCEPT", cls) | ("STUCK", act, why, cls)}; fast path for the one-line ACCEPT tuples"""
-    v = {}
+def parse_verdicts(text, want=()):
+    """one shard's TLC output -> (classes {cls: n}, stuck {id: ("STUCK", act, why, cls)}, n_accept, {id: verdict for id in want})
+    (fast path for the one-line ACCEPT tuples; millions of cases in the thorough tier)"""
+    classes, stuck, kept, nacc = {}, {}, {}, 0
     for m in _acc.finditer(text):
-        v[m.group(1)] = ("ACCEPT", tuple(x.strip().strip('"') for x in m.group(2).split(",")))
+        cls = tuple(x.strip().strip('"') for x in m.group(2).split(","))
+        classes[cls] = classes.get(cls, 0) + 1
+        nacc += 1
+        if m.group(1) in want:
+            kept[m.group(1)] = ("ACCEPT", cls)
     rest = _acc.sub("", text)
     k = rest.find("<<")
     if k >= 0:
@@ -30,24 +35,58 @@ def parse_verdicts(text):
             if not isinstance(t, list) or len(t) < 3:
                 continue
             if t[0] == "ACCEPT":
-                v[t[1]] = ("ACCEPT", tuple(str(x) for x in t[2]))
+                cls = tuple(str(x) for x in t[2])
+                classes[cls] = classes.get(cls, 0) + 1
+                nacc += 1
+                if t[1] in want:
+                    kept[t[1]] = ("ACCEPT", cls)
             elif t[0] == "STUCK" and len(t) >= 6:
-                v[t[1]] = ("STUCK", t[3], t[4], tuple(str(x) for x in t[5]))
-    return v
+                cls = tuple(str(x) for x in t[5])
+                classes[cls] = classes.get(cls, 0) + 1
+                stuck[t[1]] = ("STUCK", t[3], t[4], cls)
+    return classes, stuck, nacc, kept
 
 
-def validate_files(paths, tag, timeout):
-    """run Trace_LlcpPdu over the shard files (one JVM per file, 16 at a time)"""
-    jobs = [("Trace_LlcpPdu.tla", "Trace_LlcpPdu.cfg", tag, k, p, timeout, None, tlc.SPEC) for k, p in enumerate(paths)]
+def _run_shard(args):
+    """vlib.tlc._run_trace_shard with a 1 GB thread stack: Decode recurses over aggregated PDUs (549 levels for a
+    2200-octet frame) and the not yet JIT-compiled interpreter overflowed vlib's 16 MB now and then."""
+    module, cfg, tag, k, path, timeout = args
+    meta = os.path.join(OUT, tag, "tmeta_%d_%d" % (os.getpid(), k))
+    os.makedirs(os.path.join(OUT, tag), exist_ok=True)
+    shutil.rmtree(meta, ignore_errors=True)
+    cmd = ["java", "-XX:+UseParallelGC", "-Xmx3g", "-Xss1g", "-cp", tlc.JAR, "tlc2.TLC", "-config", cfg,
+           "-workers", "1", "-metadir", meta, "-noGenerateSpecTE", "-deadlock", module]
+    env = dict(os.environ, TRACE_FILE=path)
+    t0 = time.time()
+    try:
+        p = subprocess.run(cmd, cwd=tlc.SPEC, env=env, stdout=subprocess.PIPE, stderr=subprocess.STDOUT,
+                           timeout=timeout, text=True, errors="replace")
+    except subprocess.TimeoutExpired:
+        raise tlc.TLCError("trace shard %d timeout" % k)
+    finally:
+        shutil.rmtree(meta, ignore_errors=True)
+    r = tlc.Result()
+    r.rc, r.out, r.wall = p.returncode, p.stdout, time.time() - t0
+    tlc.parse_output(p.stdout, r)
+    return r
+
+
+def validate_files(paths, tag, timeout, want=()):
+    """run Trace_LlcpPdu over the shard files (one JVM per file, 16 at a time)
+    -> list per file of (classes, stuck, n_accept, kept), states, wall"""
+    jobs = [("Trace_LlcpPdu.tla", "Trace_LlcpPdu.cfg", tag, k, p, timeout) for k, p in enumerate(paths)]
     with cf.ThreadPoolExecutor(max_workers=16) as ex:
-        res = list(ex.map(tlc._run_trace_shard, jobs))
-    verdicts, states = {}, 0
+        res = list(ex.map(_run_shard, jobs))
+    out, states = [], 0
     for p, r in zip(paths, res):
         if not r.completed or r.violated:
+            with open(os.path.join(OUT, PID, "failed_shard.log"), "w") as fh:
+                fh.write(r.out)
             raise tlc.TLCError("trace batch %s failed rc=%s\n%s" % (p, r.rc, r.out[-4000:]))
         states += r.distinct
-        verdicts.update(parse_verdicts(r.out))
-    return verdicts, states, max(r.wall for r in res)
+        out.append(parse_verdicts(r.out, want))
+        r.out = None
+    return out, states, max(r.wall for r in res)
 
 
 def flat(x):
@@ -68,23 +107,41 @@ def canonical_key(v):
         while len(det) > 1 and det[0] == "AGF" and det[1] != "count":
             det = det[1:]                                          # the innermost differing PDU
         return "inv:%s:%s" % (name, flat(det))
+    def inner(br):
+        """innermost part of a spec branch: drop the enclosing AGF / agf-member levels"""
+        br = [str(x) for x in br]
+        if br[:1] == ["ERR"]:
+            rest = [x for x in br[1:] if x != "agf-member"]
+            return "ERR/" + "/".join(rest)
+        if br[:1] == ["AGF"]:
+            return "AGF"
+        return "/".join(br)
     if kind == "no-action":
         what, out = why[1], why[2]
-        br = why[3] if len(why) > 3 else []
-        where = "spec=%s" % ("/".join(br[:2]) if br and br[0] == "ERR" else (br[0] if br else "-"))
-        return "no-action:%s:%s:%s" % (what, out, where)
+        return "no-action:%s:%s:spec=%s" % (what, out, inner(why[3]) if len(why) > 3 else "-")
     if kind == "result":
-        return "result:%s:nfcpy=%s:%s" % (act, flat(why[2]), flat(why[1]))
+        det = list(why[2])
+        if len(det) > 1:                                           # a field difference between two decoded PDUs
+            while len(det) > 1 and det[0] == "AGF" and det[1] != "count":
+                det = det[1:]
+            return "result:%s:%s" % (act, flat(det))
+        return "result:%s:nfcpy=%s:spec=%s" % (act, flat(det), inner(why[1]))
     return "stuck:" + flat(why)
 
 
-def find_case(paths, cid):
-    for p in paths:
-        with open(p) as fh:
-            for ln in fh:
-                if ln.startswith('{"id":"%s"' % cid):
-                    return json.loads(ln)
-    return None
+def fetch_cases(path, ids):
+    """the recorded cases with the given ids from one shard file (one pass)"""
+    ids, out = set(ids), {}
+    if not ids:
+        return out
+    with open(path) as fh:
+        for ln in fh:
+            k = ln.find('"', 7)
+            if ln[7:k] in ids:
+                out[ln[7:k]] = json.loads(ln)
+                if len(out) == len(ids):
+                    break
+    return out
 
 
 def selftest_cases(good_pdu, good_bytes):
@@ -155,20 +212,21 @@ def run(tier, seed):
                 for c in st_cases:
                     fh.write(json.dumps(c, separators=(",", ":")) + "\n")
             # 2. TLC judges every case
-            verdicts, tstates, twall = validate_files(paths + [sp], PID + "/trace", 900 if quick else 3000)
+            SAMPLE_IDS = ("l129.1", "l0.64", "l0.65")
+            per, tstates, twall = validate_files(paths + [sp], PID + "/trace", 900 if quick else 3000, SAMPLE_IDS)
             mc = mcf.result()
+        _, st_stuck, st_nacc, _ = per[-1]
+        per = per[:-1]
         for c in st_cases:
-            v = verdicts.get(c["id"])
-            if v is None:
-                raise tlc.TLCError("no verdict for self-test case %s" % c["id"])
-            if c["id"].startswith("self-") and v[0] == "ACCEPT":
+            if c["id"].startswith("self-") and c["id"] not in st_stuck:
                 raise tlc.TLCError("binding vacuous: corrupted case %s accepted" % c["id"])
-            if c["id"] in ("g1", "g2") and v[0] != "ACCEPT":
-                raise tlc.TLCError("binding self-test: well-behaved case %s rejected: %r" % (c["id"], v))
-        for k in [c["id"] for c in st_cases]:
-            verdicts.pop(k)
-        if len(verdicts) != ncases:
-            raise tlc.TLCError("verdicts for %d of %d cases" % (len(verdicts), ncases))
+            if c["id"] in ("g1", "g2") and c["id"] in st_stuck:
+                raise tlc.TLCError("binding self-test: well-behaved case %s rejected: %r" % (c["id"], st_stuck[c["id"]]))
+        if st_nacc + len(st_stuck) != len(st_cases):
+            raise tlc.TLCError("self-test: %d verdicts for %d cases" % (st_nacc + len(st_stuck), len(st_cases)))
+        for k, (cl, stuck, nacc, kept) in enumerate(per):
+            if nacc + len(stuck) != stats[k]["n"]:
+                raise tlc.TLCError("shard %d: %d verdicts for %d cases" % (k, nacc + len(stuck), stats[k]["n"]))
 
         # 3. the spec-alone theorems
         for name, r in (("pdu", mc["pdu"]), ("bytes", mc["byt"])):
@@ -176,25 +234,35 @@ def run(tier, seed):
                 ck.violation("spec:LlcpPdu(%s):%s" % (name, ",".join(r.violated or ["deadlock"])),
                              "TLC refutes a theorem of the reference codec itself: %s" % (r.error_trace or "")[:1500])
         # 4. verdicts
-        classes, rejected = {}, {}
-        for cid, v in verdicts.items():
-            cls = v[-1]
-            classes[cls] = classes.get(cls, 0) + 1
-            if v[0] == "STUCK":
-                rejected.setdefault(canonical_key(v), []).append(cid)
+        classes, rejected, verdicts = {}, {}, {}
+        for k, (cl, stuck, nacc, kept) in enumerate(per):
+            for c, n in cl.items():
+                classes[c] = classes.get(c, 0) + n
+            verdicts.update(kept)
+            for cid, v in stuck.items():
+                verdicts[cid] = v
+                rejected.setdefault(canonical_key(v), []).append((cid, k))
+        # fetch a few recorded cases per key (one pass per shard file) and report the smallest input
+        wanted = {}
+        for key, ids in rejected.items():
+            ids.sort(key=lambda x: (len(x[0]), x[0]))
+            for cid, k in ids[:24]:
+                wanted.setdefault(k, set()).add(cid)
+        got = {}
+        for k, ids in wanted.items():
+            got.update(fetch_cases(paths[k], ids))
         samples = {}
         for key, ids in sorted(rejected.items()):
-            ids.sort(key=lambda i: (len(i), i))
-            c = min((find_case(paths, i) for i in ids[:40]), key=lambda c: (len(c["b"]) + len(c["enc"]), c["id"]))
+            c = min((got[cid] for cid, _ in ids[:24]), key=lambda c: (len(c["b"]) + len(c["enc"]), c["id"]))
             v = verdicts[c["id"]]
             inp = {"pdu": c["f"]} if c["k"] == "pdu" else {"bytes": c["b"]}
             what = "%d case(s), smallest %s [%s]: %s -> nfcpy %s%s ; TLC: %s %s" % (
                 len(ids), c["id"], c.get("tag"),
-                ("bytes " + bytes(c["b"]).hex()) if c["k"] == "bytes" else ("PDU " + json.dumps(c["f"])[:300]),
+                ("bytes " + bytes(c["b"]).hex()[:400]) if c["k"] == "bytes" else ("PDU " + json.dumps(c["f"])[:300]),
                 c["out"], (" " + json.dumps(c["f"])[:200]) if c["k"] == "bytes" and c["out"] == "ok" else "",
                 v[1], json.dumps(v[2])[:300])
             ck.violation(key, what, replay=dict(kind="case", input=inp, expect_key=key))
-            samples[key] = dict(input=(bytes(c["b"]).hex() if c["k"] == "bytes" else c["f"]), nfcpy=c["out"],
+            samples[key] = dict(input=(bytes(c["b"]).hex()[:400] if c["k"] == "bytes" else c["f"]), nfcpy=c["out"],
                                 nfcpy_fields=c["f"] if c["k"] == "bytes" and len(json.dumps(c["f"])) < 300 else None,
                                 tlc=[v[1], v[2]])
         nontrivial = sorted(c for c in classes if not (c[2:3] == ("ERR",) and c[3:] == TRIVIAL))
@@ -218,10 +286,9 @@ def run(tier, seed):
                  gen_wall_s=round(t_gen, 1), tlc_trace_wall_s=round(twall, 1),
                  binding_selftest="corrupted octet / field / len, dropped re-decode and a foreign exception all rejected")
         # evidence samples: concrete byte strings with both verdicts
-        for cid in ("l129.1", "l0.64"):
-            c = find_case(paths, cid)
-            if c:
-                ck.sample(dict(bytes=bytes(c["b"]).hex(), nfcpy=c["out"], nfcpy_fields=c["f"], tlc=list(verdicts[cid])))
+        for k in range(cases.NSHARD):
+            for cid, c in sorted(fetch_cases(paths[k], [i for i in SAMPLE_IDS if i in per[k][3]]).items()):
+                ck.sample(dict(bytes=bytes(c["b"]).hex(), nfcpy=c["out"], nfcpy_fields=c["f"], tlc=list(verdicts[cid])), limit=8)
         for key in sorted(samples)[:4]:
             ck.sample(dict(finding=key, **samples[key]), limit=8)
         ck.cover(classes=[" ".join(c) for c in nontrivial][:400])
@@ -244,10 +311,10 @@ def replay(rep, args):
         with open(p, "w") as fh:
             with cases.deep():
                 fh.write(json.dumps(c, separators=(",", ":")) + "\n")
-        verdicts, _, _ = validate_files([p], PID + "/replay", 300)
+        per, _, _ = validate_files([p], PID + "/replay", 300, ("replay",))
     finally:
         shutil.rmtree(wd, ignore_errors=True)
-    v = verdicts["replay"]
+    v = per[0][1].get("replay") or per[0][3]["replay"]
     inp = r["input"]
     print("input   :", ("bytes " + bytes(inp["bytes"]).hex()) if "bytes" in inp else ("PDU " + json.dumps(inp["pdu"])))
     print("nfcpy   : decode -> %s %s ; encode -> %s %s len=%s ; re-decode -> %s %s" % (
